@@ -613,7 +613,9 @@ func replayObligation(e *Engine, o *Obligation, outDir, work string) (string, bo
 		oracle = o.Ghost
 	case o.Kind == "bounds" || o.Kind == "nilderef" || o.Kind == "slice" || o.Kind == "nilmap" || o.Kind == "assert-type" || o.Kind == "div0" || o.Kind == "panic-unreachable":
 	default:
-		return finish("obligations of kind "+o.Kind+" have no run-time oracle", false)
+		if os.Getenv("GOCV_DEBUG_MODEL") == "" {
+			return finish("obligations of kind "+o.Kind+" have no run-time oracle", false)
+		}
 	}
 	script := o.vc.scriptOpt(o.Upto, o.Path, o.Goal, true, relaxed)
 	// prefer small models: bound the length of every slice-sorted constant and of the inputs
@@ -658,6 +660,21 @@ func replayObligation(e *Engine, o *Obligation, outDir, work string) (string, bo
 	var argExprs []string
 	for i, p := range fn.Params {
 		argExprs = append(argExprs, vb.build(x.rootParams[i].S, p.Type(), 0))
+	}
+	if os.Getenv("GOCV_DEBUG_MODEL") != "" {
+		b.WriteString("\nMODEL INPUTS:\n" + vb.buf.String())
+		for i, a := range argExprs {
+			fmt.Fprintf(&b, "arg %d (%s) = %s\n", i, fn.Params[i].Name(), a)
+		}
+		for _, d := range o.vc.decls {
+			if strings.HasPrefix(d, "(declare-const lc_") || strings.HasPrefix(d, "(declare-const ar!") || strings.HasPrefix(d, "(declare-const top") {
+				name := strings.Fields(d)[1]
+				if v, err := m.eval(name); err == nil {
+					fmt.Fprintf(&b, "%s = %s\n", name, v)
+				}
+			}
+		}
+		return finish("debug dump", false)
 	}
 	if vb.fail != "" {
 		return finish("counterexample could not be rebuilt as Go values: "+vb.fail, false)
@@ -803,7 +820,7 @@ func sizeHints(x *Exec, out *strings.Builder, term string, t types.Type, depth i
 		h := vc.arrHeap(u.Elem())
 		if ht, ok := x.initHeap[h.name]; ok {
 			for i := 0; i < 2; i++ {
-				sizeHints(x, out, fmt.Sprintf("(select (select %s (s-arr %s)) (+ (s-off %s) %d))", ht.S, term, term, i), u.Elem(), depth+1, seen)
+				sizeHints(x, out, fmt.Sprintf("(select (select %s (s-arr %s)) %d)", ht.S, term, i), u.Elem(), depth+1, seen)
 			}
 		}
 	case *types.Struct:
